@@ -553,6 +553,34 @@ theorem reloc_targets_entry_or_outside (from_ tramp : BitVec 64) (fs : Int) (tl 
   subst hrel
   omega
 
+/-! ## round 6: the check covers the whole function only if the size does -/
+
+theorem located_end (prog : List Ins) (pos p : Nat) (i : Ins) (h : (p, i) ∈ located prog pos) :
+    p + i.len ≤ pos + progLen prog := by
+  induction prog generalizing pos with
+  | nil => simp [located] at h
+  | cons j rest ih =>
+    simp only [located, List.mem_cons] at h
+    rcases h with h | h
+    · obtain ⟨rfl, rfl⟩ := Prod.mk.inj h
+      simp only [progLen]; omega
+    · have := ih _ h
+      simp only [progLen]; omega
+
+/-- **the whole function is checked when the size handed to the relocation covers it**: with `progLen prog ≤ fs` (what
+    `fixOrigin` passes, *provided `GetFuncSize` returned the real extent of the function* — that provision is outside this model and
+    is observed by the probe against the linker's symbol size) no instruction anywhere in the function targets the inside of the
+    copied prefix.  A size that under-runs the function voids this: `C03F.truncated_size_misses_back_branch`. -/
+theorem reloc_whole_function_checked (from_ tramp : BitVec 64) (fs : Int) (tl : Tail) (prog : List Ins) (hwf : ∀ i ∈ prog, WF i)
+    (hfs : (progLen prog : Int) ≤ fs) (out : Reloc.Bytes) (n : Nat)
+    (h : fixRelativeAddr Cfg.fixed from_ tramp fs 13 tl prog = .ok (out, n)) :
+    ∀ p i, (p, i) ∈ located prog 0 → i.pcrelOff ≠ 0 →
+      sdisp i.field + p + i.len ≤ 0 ∨ (n : Int) ≤ sdisp i.field + p + i.len := by
+  intro p i hm hpc
+  have := located_end prog 0 p i hm
+  exact reloc_targets_entry_or_outside from_ tramp fs tl prog hwf out n h p i hm (by omega) hpc
+
+
 /-! ## non-vacuity: the hypotheses are met by realistic instructions and the success branch is reachable -/
 
 /-- `JBE +0x0b` (76 0b) and `CMPB $0, x(RIP)` (80 3d disp32 00) satisfy the decoder contract -/
@@ -574,5 +602,8 @@ example : (-2:Int)^31 + 2^21 ≤ ((0x500000#64).toNat : Int) - (0x600000#64).toN
 /-- and for `CMPB $0, x(RIP)` the image keeps the trailing immediate -/
 example : ∃ o, fixIns Cfg.fixed exCmpb 0 13 0x402f80#64 0x4022c8#64 0 = .ok o ∧ o.length = 7 ∧ o.drop 6 = exCmpb.tail := by
   refine ⟨_, rfl, by decide, by decide⟩
+
+/-- the size hypothesis of `reloc_whole_function_checked` is met by a size that covers the function -/
+example : (progLen [exJbe, exCmpb] : Int) ≤ 9 := by decide
 
 end C03
